@@ -712,7 +712,7 @@ func init() {
 		// ---- stage 1: exhaustive grammar enumeration ----
 		{
 			maxLen := c.N(7, 9) // in search mode the quick tier keeps the bound but runs every precision
-			st := c.R.StartStage("enum-grammar", fmt.Sprintf("every string of [+-]?(d+.?d*|.d+)([eE][+-]?d+)? with d in {0,1,4,5,9} up to length %d (Decimal: those without exponent part), precisions by lexeme length: at the bound 0 and two of 1..#mantissa digits+1 (rotating); at bound-1 0 and all of 1..#digits+1; below that additionally all of -1..20 (thorough tier: for every lexeme, quick tier: for every 8th); non-trivial = output differs from input", maxLen))
+			st := c.R.StartStage("enum-grammar", fmt.Sprintf("every string of [+-]?(d+.?d*|.d+)([eE][+-]?d+)? with d in {0,1,4,5,9} up to length %d (Decimal: those without exponent part), precisions by lexeme length: at the bound 0 and two (thorough: one) of 1..#mantissa digits+1 (rotating); at bound-1 0 and all (thorough: three rotating) of 1..#digits+1; below that additionally all of -1..20 (thorough tier: for every lexeme, quick tier: for every 8th); non-trivial = output differs from input", maxLen))
 			st.Exhaustive = true
 			b := newBatch(st)
 			b.distinct = true
@@ -721,16 +721,24 @@ func init() {
 				cnt++
 				for _, p := range precs {
 					// precision schedule by lexeme length: up to bound-2 every precision -1..20 (thorough or search;
-					// quick: 0, 1..digits+1, and all of them on every 8th lexeme); bound-1: 0 and 1..digits+1;
-					// at the bound: 0 and two of 1..digits+1 (rotating).  Search mode runs everything below the bound fully.
+					// quick: 0, 1..digits+1, and all of them on every 8th lexeme); bound-1 and bound: 0 and some of
+					// 1..digits+1 (see below).  Search mode runs everything below the bound fully.
 					use := p == 0
 					switch {
 					case len(s) <= maxLen-2 || (c.Search && len(s) < maxLen):
 						use = use || c.Thorough() || c.Search || (p >= 1 && p <= nd+1) || cnt%8 == 0
 					case len(s) == maxLen-1:
-						use = use || (p >= 1 && p <= nd+1)
+						if c.Thorough() { // thorough: three rotating precisions out of 1..digits+1
+							use = use || (p >= 1 && p <= nd+1 && (p == 1+cnt%(nd+1) || p == 1+(cnt/7+3)%(nd+1) || p == 1+(cnt/3+1)%(nd+1)))
+						} else {
+							use = use || (p >= 1 && p <= nd+1)
+						}
 					default:
-						use = use || (p >= 1 && p <= nd+1 && (p == 1+cnt%(nd+1) || p == 1+(cnt/7+3)%(nd+1)))
+						if c.Thorough() { // thorough: one rotating precision
+							use = use || (p >= 1 && p <= nd+1 && p == 1+cnt%(nd+1))
+						} else {
+							use = use || (p >= 1 && p <= nd+1 && (p == 1+cnt%(nd+1) || p == 1+(cnt/7+3)%(nd+1)))
+						}
 					}
 					if !use {
 						continue
